@@ -45,6 +45,7 @@ from __future__ import annotations
 
 import gc
 import sys
+import warnings
 import weakref
 
 from hypothesis import strategies as st
@@ -135,39 +136,102 @@ class WEmpty(W):
         return 0
 
 
-class SenderMeta(metaclass=urwid.MetaSignals):
-    signals = ["a", "b"]  # noqa: RUF012
-
-
-class SenderReg:
-    pass
-
-
-urwid.register_signal(SenderReg, ["a", "b"])
-
-
-class SenderSub(SenderMeta):
-    signals = ["c"]  # noqa: RUF012   "a", "b" are inherited through the metaclass
-
-
-class SenderList(list, metaclass=urwid.MetaSignals):
-    """an (empty, hence falsy) list that sends signals, like SimpleListWalker"""
-
-    signals = ["a", "b"]  # noqa: RUF012
-
-
 class Unregistered:
     pass
 
 
-KINDS = {
-    "meta": (SenderMeta, ("a", "b")),
-    "reg": (SenderReg, ("a", "b")),
-    "sub": (SenderSub, ("a", "c")),
-    "list": (SenderList, ("a", "b")),
-    "edit": (urwid.Edit, ("change", "postchange")),
-}
-KIND_NAMES = list(KINDS)
+EXTRA = "zz"  # a third name: not registered for any class unless a later register_signal() call adds it
+
+
+def _build(kind, fresh=False, created=None):
+    """(sender class, the two signal names used for slots, the list of names registered for the class).
+
+    Every documented spelling of "these are the signals of my class" is a kind: the ``signals`` class
+    attribute handled by MetaSignals / the widget metaclass, and the explicit ``register_signal(cls, names)``
+    call after the class definition (docs/manual/widgets.rst: the attribute "is equivalent to calling
+    register_signal ... after the class definition"; for a Widget subclass the metaclass has registered the
+    class before, so there the explicit call is always a second registration of the class).
+    ``fresh``: classes of this case only (histories that register again must not leak into other cases)."""
+    made = []
+    if kind == "meta":
+
+        class SenderMeta(metaclass=urwid.MetaSignals):
+            signals = ["a", "b"]  # noqa: RUF012
+
+        made.append(SenderMeta)
+        out = (SenderMeta, ("a", "b"), ["a", "b"])
+    elif kind == "reg":
+
+        class SenderReg:
+            pass
+
+        urwid.register_signal(SenderReg, ["a", "b"])
+        made.append(SenderReg)
+        out = (SenderReg, ("a", "b"), ["a", "b"])
+    elif kind == "sub":
+        base = _build("meta", fresh, made)[0]
+
+        class SenderSub(base):
+            signals = ["c"]  # noqa: RUF012   "a", "b" are inherited through the metaclass
+
+        made.append(SenderSub)
+        out = (SenderSub, ("a", "c"), ["c", "a", "b"])
+    elif kind == "list":
+
+        class SenderList(list, metaclass=urwid.MetaSignals):
+            """an (empty, hence falsy) list that sends signals, like SimpleListWalker"""
+
+            signals = ["a", "b"]  # noqa: RUF012
+
+        made.append(SenderList)
+        out = (SenderList, ("a", "b"), ["a", "b"])
+    elif kind == "lwid":
+
+        class SenderWrap(urwid.WidgetWrap):
+            """a widget class that declares its signals the old way, after the class definition"""
+
+            def __init__(self):
+                super().__init__(urwid.Text(""))
+
+        urwid.register_signal(SenderWrap, ["a", "b"])
+        made.append(SenderWrap)
+        out = (SenderWrap, ("a", "b"), ["a", "b"])
+    elif kind == "button":
+
+        class SenderButton(urwid.Button):
+            signals = ["aux"]  # noqa: RUF012   "click" is inherited
+
+        made.append(SenderButton)
+        out = (SenderButton, ("click", "aux"), ["aux", "click"])
+    elif kind == "lbtn":
+
+        class SenderLButton(urwid.Button):
+            pass
+
+        urwid.register_signal(SenderLButton, ["click", "aux"])
+        made.append(SenderLButton)
+        out = (SenderLButton, ("click", "aux"), ["click", "aux"])
+    else:
+        base = {"edit": urwid.Edit, "checkbox": urwid.CheckBox, "radio": urwid.RadioButton}[kind]
+        if fresh:
+            base = type("Sender" + base.__name__, (base,), {})  # inherits the names through the metaclass
+            made.append(base)
+        out = (base, ("change", "postchange"), ["change", "postchange"])
+    if created is not None:
+        created.extend(made)
+    return out
+
+
+KIND_NAMES = ["meta", "reg", "sub", "list", "edit", "lwid", "button", "lbtn", "checkbox", "radio"]
+KINDS = {kind: _build(kind) for kind in KIND_NAMES}
+# widgets whose constructor is a documented shorthand for connect_signal(widget, <first name>, callback, user_data)
+CTOR_KINDS = ("button", "lbtn", "checkbox", "radio")
+BUTTON_KINDS = ("button", "lbtn")
+# values of the legacy positional user_arg / user_data: "If None no arguments will be added" - every other
+# value is an argument, in particular the ones that are false (0 is the first entry of every enumerate() menu)
+UARGS = [0, False, "", [], 0.0, "x", 9]
+REG_CONTS = ("list", "tuple", "frozenset")  # register(sig_cls, signals: Container[Hashable])
+warnings.filterwarnings("ignore", message="Don't use user_arg argument", category=DeprecationWarning)
 CALL_LIMIT = 400
 MAX_DEPTH = 2
 # weak_args / user_args are documented (and annotated) as iterables: the kinds of iterable handed over
@@ -206,9 +270,54 @@ class Injector:
         return self.local_trace
 
 
-def _make_sender(kind):
-    cls = KINDS[kind][0]
-    return cls("") if kind == "edit" else cls()
+def _uval(v):
+    """the legacy argument as handed to urwid (a fresh object every time for the mutable one)"""
+    return list(v) if isinstance(v, list) else v
+
+
+def _tok(a):
+    """a received argument as a hashable, printable token"""
+    if isinstance(a, W):
+        return ("W", a.label)
+    if a is None or type(a) in (str, int):
+        return a
+    return ("?", type(a).__name__, repr(a))
+
+
+def _ua_sig(v):
+    return ("UA", type(v).__name__, repr(v))
+
+
+def _ua_loose(ua):
+    """what disconnect(args) can tell apart: urwid compares with ==, and 0 == False == 0.0"""
+    if ua is None:
+        return None
+    v = ua[0]
+    return ("n", float(v)) if isinstance(v, (bool, int, float)) else ("r", repr(v))
+
+
+def _nx(n, x):
+    """the other of the two names of a sender (the third name has no partner)"""
+    return n ^ x if n < 2 else n
+
+
+def _make_sender(kind, cls, cb=None, ua=None):
+    """``cb`` given: the constructor shorthand "on_press / on_state_change [, user_data]" of the widget"""
+    if kind in BUTTON_KINDS:
+        args = [""]
+    elif kind == "checkbox":
+        args = ["", False, False] if cb is not None else [""]
+    elif kind == "radio":
+        args = [[], "", False]  # the group list is the harness's and goes away with this call
+    elif kind == "edit":
+        args = [""]
+    else:
+        args = []
+    if cb is not None:
+        args.append(cb)
+        if ua is not None:
+            args.append(_uval(ua[0]))
+    return cls(*args)
 
 
 class HObj:
@@ -224,7 +333,7 @@ class HObj:
 
 
 class Conn:
-    __slots__ = ("cid", "h", "key", "sig", "slot", "uargs", "widx", "wk")
+    __slots__ = ("cid", "dsig", "h", "key", "plain", "sig", "slot", "ua", "uargs", "widx", "wk")
 
 
 class Frame:
@@ -236,18 +345,25 @@ class State:
         self.case = case
         self.hspecs = case["handlers"]
         self.kinds = case["senders"]
+        # histories that register a class again work on classes of their own
+        fresh = any(op[0] == "reg" for op in case["ops"])
+        self.created = []
+        self.cls = {k: (_build(k, True, self.created) if fresh else KINDS[k]) for k in dict.fromkeys(self.kinds)}
+        self.registered = {k: set(info[2]) for k, info in self.cls.items()}  # model: names registered per class
         if case["api"] == "instance":
             sig = usignals.Signals()
-            for kind in set(self.kinds):
-                cls, names = KINDS[kind]
-                # the widget classes register all their names; ours the two names we use (+ inherited)
-                sig.register(cls, list(getattr(cls, "signals", names)))
-            self.connect, self.disconnect = sig.connect, sig.disconnect
+            for cls, _names, reglist in self.cls.values():
+                sig.register(cls, list(reglist))
+            self.connect, self.disconnect, self.register = sig.connect, sig.disconnect, sig.register
             self.disconnect_by_key, self.emit = sig.disconnect_by_key, sig.emit
+            self.ctor = [None] * len(self.kinds)  # the widgets' constructors use the module-level functions
         else:
             self.connect, self.disconnect = urwid.connect_signal, urwid.disconnect_signal
             self.disconnect_by_key, self.emit = urwid.disconnect_signal_by_key, urwid.emit_signal
-        self.senders = [_make_sender(k) for k in self.kinds]
+            self.register = urwid.register_signal
+            self.ctor = list(case.get("ctor") or [None] * len(self.kinds))
+        self.senders = [None] * len(self.kinds)
+        self.ctor_conn = [None] * len(self.kinds)
         self.sgen = [0] * len(self.senders)
         self.model = {}  # (s, n) -> [Conn]
         self.gone_sigs = {}  # (s, n) -> set of signatures disconnected / dead (diagnosis only)
@@ -273,6 +389,47 @@ class State:
                 self.cbs.append(HObj(self, h))
             else:
                 self.cbs.append(self._make_func(h))
+        for s in range(len(self.senders)):
+            self.new_sender(s)
+
+    def new_sender(self, s):
+        """a new sender object; a widget may be built with the constructor shorthand, which is a connection"""
+        kind = self.kinds[s]
+        spec = self.ctor[s] if kind in CTOR_KINDS else None
+        if spec is None:
+            self.senders[s] = _make_sender(kind, self.cls[kind][0])
+            self.ctor_conn[s] = None
+            return
+        h = spec[0] % len(self.hspecs)
+        ua = None if spec[1] is None else (spec[1],)
+        if self.name(s, 0) not in self.registered[kind]:
+            # the class has been registered again without the name the shorthand connects to: rejected like
+            # any other connect (the widget is then built without the shorthand)
+            try:
+                _make_sender(kind, self.cls[kind][0], self.callback(h), ua)
+            except NameError:
+                _count("dyn:unregistered-connect-rejected")
+            else:
+                raise Violation(
+                    "unregistered-name-rejected",
+                    f"{self.cls[kind][0].__name__}(..., callback) connected to {self.name(s, 0)!r}; the names "
+                    f"registered for the class are {sorted(self.registered[kind])}",
+                )
+            self.senders[s] = _make_sender(kind, self.cls[kind][0])
+            self.ctor_conn[s] = None
+            return
+        self.senders[s] = _make_sender(kind, self.cls[kind][0], self.callback(h), ua)
+        self.ctor_conn[s] = self.new_conn(h, (s, 0), None, (), (), (), ua, False)
+        _count("dyn:connected-by-constructor")
+
+    def new_conn(self, h, slot, key, wk, widx, uargs, ua, plain):
+        c = Conn()
+        c.cid, self.ncid = self.ncid, self.ncid + 1
+        c.h, c.slot, c.key, c.wk, c.widx, c.uargs, c.ua, c.plain = h, slot, key, wk, widx, uargs, ua, plain
+        c.sig = (h, *(("W", lbl) for lbl in wk), *uargs, *(() if ua is None else (_ua_sig(ua[0]),)))
+        c.dsig = (h, wk, uargs, _ua_loose(ua))
+        self.model_add(c)
+        return c
 
     def _make_func(self, h):
         def cb(*args):
@@ -395,7 +552,7 @@ class State:
             _count("dyn:removed-during-emit")
 
     def name(self, s, n):
-        return KINDS[self.kinds[s]][1][n]
+        return self.cls[self.kinds[s]][1][n] if n < 2 else EXTRA
 
     def args_available(self, conn):
         return all(self.pool[k] is not None and self.pool[k].label == lbl for k, lbl in zip(conn.widx, conn.wk))
@@ -411,6 +568,7 @@ class State:
         if tag:
             uargs.append(f"#{self.ncid}")
         cont, mut = hs.get("cont", "list"), hs.get("mut", 0)
+        ua = None if hs.get("uarg") is None else (hs["uarg"],)
         kw, passed = {}, []
         if wobjs:
             passed.append(list(wobjs))
@@ -418,7 +576,28 @@ class State:
         if uargs:
             passed.append(list(uargs))
             kw["user_args"] = _container(cont, passed[-1])
-        key = self.connect(self.senders[s], self.name(s, n), self.callback(h), **kw)
+        # the legacy spelling connect_signal(obj, name, callback, user_arg) (deprecated, documented; it is what
+        # the Button / CheckBox docstrings tell the reader to write)
+        pos = () if ua is None else (_uval(ua[0]),)
+        name = self.name(s, n)
+        registered = name in self.registered[self.kinds[s]]
+        try:
+            key = self.connect(self.senders[s], name, self.callback(h), *pos, **kw)
+        except NameError as e:
+            if registered:
+                raise Violation(
+                    "registered-name-accepted",
+                    f"connect({type(self.senders[s]).__name__}, {name!r}) raised NameError ({e}) although the names "
+                    f"registered for the class are {sorted(self.registered[self.kinds[s]])}",
+                ) from None
+            _count("dyn:unregistered-connect-rejected")
+            return None
+        if not registered:
+            raise Violation(
+                "unregistered-name-rejected",
+                f"connect({type(self.senders[s]).__name__}, {name!r}) did not raise NameError; the names registered "
+                f"for the class are {sorted(self.registered[self.kinds[s]])}",
+            )
         if mut:
             # the caller goes on using the lists it built: the connection keeps "the arguments given at
             # connect time" (with tuple / generator there is nothing to change afterwards)
@@ -428,15 +607,8 @@ class State:
                 else:
                     lst.clear()
         del passed
-        c = Conn()
-        c.cid, self.ncid = self.ncid, self.ncid + 1
-        c.h, c.slot, c.key = h, (s, n), key
-        c.wk = tuple(w.label for w in wobjs)
-        c.widx = tuple(hs["weak"])
-        c.uargs = tuple(uargs)
-        c.sig = (h, *(("W", lbl) for lbl in c.wk), *c.uargs)
         self.keys.append(((s, n), self.sgen[s], key))
-        self.model_add(c)
+        c = self.new_conn(h, (s, n), key, tuple(w.label for w in wobjs), tuple(hs["weak"]), tuple(uargs), ua, not tag)
         # only now: a weak argument the harness let go of while connect() was running (Injector) dies here
         del wobjs
         return c
@@ -446,9 +618,14 @@ class State:
         s, n = conn.slot
         lst = self.model.get(conn.slot, [])
         connected = any(c is conn for c in lst)
-        same = sum(1 for c in lst if c.sig == conn.sig)
+        same = sum(1 for c in lst if c.dsig == conn.dsig)
+        if via == "key" and conn.key is None:
+            via = "args"  # connected by a widget's constructor: there is no key
         if via == "args" and (same > (1 if connected else 0) or not self.args_available(conn)):
             # ambiguous (duplicates) or the weak arguments cannot be supplied any more
+            if conn.key is None:
+                _count("dyn:disconnect-not-performed")
+                return
             via = "key"
             _count("dyn:args-disconnect-replaced-by-key")
         if via == "args":
@@ -458,7 +635,8 @@ class State:
                 kw["weak_args"] = _container(dcont, self.weak_objs_of(conn))
             if conn.uargs:
                 kw["user_args"] = _container(dcont, list(conn.uargs))
-            self.disconnect(self.senders[s], self.name(s, n), self.callback(conn.h), **kw)
+            pos = () if conn.ua is None else (_uval(conn.ua[0]),)
+            self.disconnect(self.senders[s], self.name(s, n), self.callback(conn.h), *pos, **kw)
         else:
             self.disconnect_by_key(self.senders[s], self.name(s, n), conn.key)
         if not connected:
@@ -467,17 +645,40 @@ class State:
             self.model_remove(conn)
         # else: one of its weak arguments died while the call was in progress (model updated by on_death)
 
-    def do_emit(self, s, n, eargs):
+    def do_emit(self, s, n, eargs, press=False):
         fr = Frame()
         fr.slot, fr.eargs, fr.depth = (s, n), tuple(eargs), len(self.frames) + 1
         fr.S = list(self.model.get((s, n), ()))
         fr.ok = {c.sig for c in fr.S}
         fr.added, fr.touched, fr.calls, fr.rets, fr.events, fr.seen, fr.cur = [], set(), [], [], [], set(), None
         self.frames.append(fr)
-        result = self.emit(self.senders[s], self.name(s, n), *eargs)
+        if press:
+            # the widget emits by itself: the "activate" key makes a Button send 'click' with the button
+            result = None
+            self.senders[s].keypress((10,), "enter")
+        else:
+            result = self.emit(self.senders[s], self.name(s, n), *eargs)
         self.frames.pop()
-        self.check_frame(fr, result)
+        self.check_frame(fr, result, not press)
+        fr.eargs = ()
         return result
+
+    def do_press(self, s):
+        """the user activates widget s (a Button: 'click' is emitted with the button as its argument); for
+        the other senders, and where the harness works on a Signals object of its own, a plain emit"""
+        if self.kinds[s] in BUTTON_KINDS and self.case["api"] != "instance":
+            _count("dyn:emit-by-keypress")
+            return self.do_emit(s, 0, [self.senders[s]], press=True)
+        return self.do_emit(s, 0, [])
+
+    def do_register(self, s, v, cont):
+        """register_signal(class of sender s, another list of names): from now on exactly these names are
+        'registered for the sender's class'"""
+        kind = self.kinds[s]
+        cls, names, reglist = self.cls[kind]
+        new = [list(reglist), [*reglist, EXTRA], [names[0]], [names[1]], []][v % 5]
+        self.register(cls, {"list": list, "tuple": tuple, "frozenset": frozenset}[cont](new))
+        self.registered[kind] = set(new)
 
     # ---- a callback was called ---------------------------------------------------------------
     def called(self, h, args):
@@ -487,15 +688,24 @@ class State:
         if not self.frames:
             raise Violation("called-outside-emit", f"handler {h} called with {args!r} while no emit is in progress")
         fr = self.frames[-1]
-        ne = len(fr.eargs)
-        if ne > len(args) or tuple(args[len(args) - ne :]) != fr.eargs:
+        ne, na = len(fr.eargs), len(args)
+        # weak + user arguments, the emitted arguments and - for a connection made with the legacy positional
+        # user_arg / a constructor's user_data - that argument "appended after the arguments passed when the
+        # signal is emitted" (docstring of connect_signal)
+        head = sig = None
+        if ne <= na and tuple(args[na - ne :]) == fr.eargs:
+            head = args[: na - ne]
+            sig = (h, *(_tok(a) for a in head))
+        if (sig is None or sig not in fr.ok) and ne < na and tuple(args[na - ne - 1 : na - 1]) == fr.eargs:
+            sig1 = (h, *(_tok(a) for a in args[: na - ne - 1]), _ua_sig(args[-1]))
+            if sig is None or sig1 in fr.ok:
+                head, sig = args[: na - ne - 1], sig1
+        if sig is None:
             raise Violation(
                 "arguments",
-                f"handler {h} received {self.show(args)} during emit{fr.slot} with arguments {fr.eargs}: "
-                f"the emitted arguments are not its last arguments",
+                f"handler {h} received {self.show(args)} during emit{fr.slot} with arguments {self.show(fr.eargs)}: "
+                f"the emitted arguments are not its last arguments (nor followed by one legacy user_arg only)",
             )
-        head = args[: len(args) - ne]
-        sig = (h, *((("W", a.label) if isinstance(a, W) else a) for a in head))
         if sig not in fr.ok:
             want = [list(c.sig[1:]) for c in fr.S + fr.added if c.h == h]
             was = sig in self.gone_sigs.get(fr.slot, ())
@@ -565,10 +775,10 @@ class State:
             nh = len(self.hspecs)
             if h + 1 < nh:
                 h2 = nh - 1 if beh[1] < 0 else h + 1 + beh[1] % (nh - h - 1)
-                self.do_connect(s ^ beh[2], n ^ beh[3], h2, beh[4])
+                self.do_connect(s ^ beh[2], _nx(n, beh[3]), h2, beh[4])
         elif kind == "emit":
             if len(self.frames) < MAX_DEPTH:
-                self.do_emit(s ^ beh[1], n ^ beh[2], [100 * len(self.frames) + i for i in range(beh[3])])
+                self.do_emit(s ^ beh[1], _nx(n, beh[2]), [100 * len(self.frames) + i for i in range(beh[3])])
         elif kind == "drop_weak":
             if self.pool:
                 self.drop_weak(beh[1] % len(self.pool))
@@ -589,12 +799,12 @@ class State:
         _count("dyn:noop-disconnect")
 
     # ---- the per-emit oracle ---------------------------------------------------------------
-    def check_frame(self, fr, result):
+    def check_frame(self, fr, result, has_result=True):
         changed = bool(fr.touched or fr.added)
         if changed:
             _count("dyn:emit-with-list-change")
         expected = any(fr.rets)
-        if bool(result) != expected:
+        if has_result and bool(result) != expected:
             raise Violation(
                 "result-is-any",
                 f"emit{fr.slot} returned {result!r}; the handlers that ran returned truth values {fr.rets}",
@@ -676,6 +886,15 @@ def run_machine(case):
         state.cbs = []
         state.senders = []
         state.model = {}
+        state.ctor_conn = []
+        if state.created:
+            # housekeeping, not oracle: the module-level Signals object keeps every class ever registered;
+            # let the classes of this case go
+            supported = getattr(getattr(usignals, "_signals", None), "_supported", None)
+            if isinstance(supported, dict):
+                for cls in state.created:
+                    supported.pop(cls, None)
+            state.created, state.cls = [], {}
     if state.deferred is not None:
         state.deferred.injected, state.deferred.tainted = list(state.injected), set(state.tainted)
         raise state.deferred
@@ -736,7 +955,7 @@ def _do_op(state, op):
         # arguments "should be exactly the same")
         s, n, h = op[1], op[2], op[3] % nh
         conns = [c for c in state.model.get((s, n), []) if c.h == h]
-        plain = [c for c in conns if c.uargs == tuple(state.hspecs[h]["uargs"])]
+        plain = [c for c in conns if c.plain]
         if len(plain) == 1:
             state.do_disconnect_conn(plain[0], "args")
         elif not conns:
@@ -747,7 +966,8 @@ def _do_op(state, op):
                 kw["weak_args"] = _container(dcont, [state.weak_obj(k) for k in hs["weak"]])
             if hs["uargs"]:
                 kw["user_args"] = _container(dcont, list(hs["uargs"]))
-            state.disconnect(state.senders[s], state.name(s, n), state.callback(h), **kw)
+            pos = () if hs.get("uarg") is None else (_uval(hs["uarg"]),)
+            state.disconnect(state.senders[s], state.name(s, n), state.callback(h), *pos, **kw)
             _count("dyn:noop-disconnect")
         else:
             _count("dyn:args-disconnect-not-performed")
@@ -756,10 +976,20 @@ def _do_op(state, op):
         if live:
             slot, key = live[op[1] % len(live)]
             cross = op[2] if len(op) > 2 else 0
-            use = (slot[0] ^ (cross & 1), slot[1] ^ (cross >> 1))
+            use = (slot[0] ^ (cross & 1), _nx(slot[1], cross >> 1))
             state.apply_key(slot, key, use)
     elif kind == "e":
         state.do_emit(op[1], op[2], op[3] if len(op) > 3 else [])
+    elif kind == "p":
+        state.do_press(op[1])
+    elif kind == "dc":
+        # disconnect_signal(widget, name, callback [, user_data]) for the connection the constructor of sender
+        # op[1] made, as the widget's docstring says; does nothing when it is not connected (any more)
+        conn = state.ctor_conn[op[1]]
+        if conn is not None:
+            state.do_disconnect_conn(conn, "args")
+    elif kind == "reg":
+        state.do_register(op[1], op[2], op[3] if len(op) > 3 else "list")
     elif kind == "dw":
         if state.pool:
             state.drop_weak(op[1] % len(state.pool))
@@ -789,8 +1019,9 @@ def _drop_sender(state, s, replace):
             "sender-not-kept-alive",
             f"sender {s} ({state.kinds[s]}) with {nconn} connection(s) is still alive after del + gc.collect()",
         )
+    state.ctor_conn[s] = None
     if replace:
-        state.senders[s] = _make_sender(state.kinds[s])
+        state.new_sender(s)
 
 
 def _final_liveness(state):
@@ -948,20 +1179,60 @@ def args_cases():
                         if nw + nu:
                             yield {"api": "global", "kind": "meta", "method": method, "nw": nw, "nu": nu,
                                    "ne": (nw + nu) % 3, "cont": cont, "mut": mut, "dcont": dcont}
+    # the legacy spelling connect_signal(obj, name, callback, user_arg): every value of the argument that is not
+    # None (the false ones included) next to every shape of the other arguments
+    for api in ("global", "instance"):
+        for method in (False, True):
+            for nw in range(2):
+                for nu in range(3):
+                    for ne in range(3):
+                        for ui in range(len(UARGS)):
+                            yield {"api": api, "kind": KIND_NAMES[(nw + nu + ne + ui) % len(KIND_NAMES)],
+                                   "method": method, "nw": nw, "nu": nu, "ne": ne, "uarg": UARGS[ui]}
+    # the constructor shorthand of the widgets that have one, without user_data and with every value of it
+    for kind in CTOR_KINDS:
+        for method in (False, True):
+            for uarg in (None, *UARGS):
+                yield {"api": "global", "kind": kind, "method": method, "ctor": 1, "uarg": uarg}
 
 
 def _args_classes(c):
+    if "ctor" in c:
+        return [f"args:constructor-shorthand:{c['kind']}", f"args:user_data:{c['uarg']!r}"]
     out = [f"args:w{c['nw']}u{c['nu']}e{c['ne']}"]
+    if "uarg" in c:
+        out.append(f"args:legacy-user_arg:{c['uarg']!r}")
     if "cont" in c:
         out.append(f"args:connect-{c['cont']}{['', '+append', '+clear'][c['mut']]}:disconnect-{c['dcont']}")
     return out
 
 
+def _check_ctor(case):
+    """Button(label, on_press, user_data) / CheckBox(..., on_state_change, user_data) / RadioButton(...):
+    "shorthand for connect_signal()", to be undone with disconnect_signal(widget, name, callback, user_data)"""
+    h0 = {"beh": ["plain"], "ret": None, "weak": [], "uargs": ["u"], "method": case["method"]}
+    h1 = {"beh": ["plain"], "ret": 1, "weak": [0], "uargs": [], "method": not case["method"]}
+    e00, e01, press = ["e", 0, 0, [3]], ["e", 0, 1, []], ["p", 0]
+    ops = [
+        e00, press, e01,  # the constructor's connection alone
+        ["c", 0, 0, 1, 0], ["c", 0, 0, 0, 0], e00, press,  # the same callback once more, with connect_signal
+        ["dc", 0], e00, press,  # the constructor's connection is taken out the documented way
+        ["dc", 0], e00,  # once more: nothing happens
+        ["ds", 0], e00, press,  # another widget built the same way
+        ["c", 0, 0, 1, 0], ["d", 0, 0, 0], e00, press, e01,  # the first connection of the slot, by arguments
+    ]
+    run_machine({"api": "global", "senders": [case["kind"], "meta"], "ctor": [[0, case["uarg"]], None],
+                 "handlers": [h0, h1], "ops": ops})
+
+
 def check_args(case):
+    if "ctor" in case:
+        return _check_ctor(case)
     nw, nu, ne = case["nw"], case["nu"], case["ne"]
     h0 = {"beh": ["plain"], "ret": 1 if nu == 1 else None, "weak": list(range(nw)),
           "uargs": [["u", 7][i] for i in range(nu)], "method": case["method"],
-          "cont": case.get("cont", "list"), "mut": case.get("mut", 0), "dcont": case.get("dcont", "list")}
+          "cont": case.get("cont", "list"), "mut": case.get("mut", 0), "dcont": case.get("dcont", "list"),
+          "uarg": case.get("uarg")}
     h1 = {"beh": ["plain"], "ret": None, "weak": [], "uargs": [], "method": not case["method"]}
     eargs = [[11, "e"][i] for i in range(ne)]
     e00, e01, e10 = ["e", 0, 0, eargs], ["e", 0, 1, eargs], ["e", 1, 0, eargs]
@@ -975,6 +1246,45 @@ def check_args(case):
         ["dw", 0], e00, e01, ["cbad", 0, 0], ["cbad", 0, 1],
     ]
     run_machine({"api": case["api"], "senders": [case["kind"], "meta"], "handlers": [h0, h1], "ops": ops})
+
+
+# ---------------------------------------------------------------------------------------------
+# reg: which names are "registered for the sender's class" - every spelling x registering again
+
+REG_HANDLERS = [
+    {"beh": ["plain"], "ret": None, "weak": [], "uargs": ["u"], "method": False},
+    {"beh": ["plain"], "ret": True, "weak": [0], "uargs": [], "method": True, "cont": "tuple"},
+    {"beh": ["plain"], "ret": None, "weak": [], "uargs": [], "method": False},
+]
+REG_VARIANTS = ("same", "extended", "first-only", "second-only", "none")
+
+
+def reg_cases():
+    """every sender kind (= spelling of the first registration) x own Signals() / module API x every sequence
+    of at most two further register() calls (the same names again / one more name / only the first / only the
+    second / no name) x the kind of container handed to register()"""
+    seqs = [[]] + [[a] for a in range(5)] + [[a, b] for a in range(5) for b in range(5)]
+    for api in ("global", "instance"):
+        for kind in KIND_NAMES:
+            for seq in seqs:
+                for cont in REG_CONTS if seq else ("list",):
+                    yield {"api": api, "kind": kind, "seq": seq, "cont": cont}
+
+
+def check_reg(case):
+    probe = [["c", 0, 0, 2, 0], ["c", 0, 1, 2, 0], ["c", 0, 2, 2, 0], ["c", 1, 0, 2, 0], ["c", 1, 2, 2, 0]]
+    emits = [["e", 0, 0, [1]], ["e", 0, 1, []], ["e", 0, 2, [2]], ["e", 1, 0, []], ["e", 1, 2, []]]
+    ops = [["c", 0, 0, 0, 0], ["c", 0, 1, 1, 0], *probe, *emits]
+    for v in case["seq"]:
+        # connections made before stay; from now on a connect is accepted exactly for the new list of names
+        ops += [["reg", 0, v, case["cont"]], *probe, *emits]
+    ops += [["dh", 0, 0, 0], ["k", 1, 0], ["d", 0, 2, 0], *emits, ["ds", 0], *probe, *emits]
+    run_machine({"api": case["api"], "senders": [case["kind"], case["kind"]], "handlers": REG_HANDLERS, "ops": ops})
+
+
+def _reg_classes(case):
+    return [f"reg:kind:{case['kind']}", *(f"reg:again:{REG_VARIANTS[v]}" for v in case["seq"]),
+            f"reg:registrations:{1 + len(case['seq'])}"]
 
 
 # ---------------------------------------------------------------------------------------------
@@ -1068,6 +1378,7 @@ _handler = st.fixed_dictionaries(
         "cont": st.sampled_from(["list", "list", "tuple", "iter"]),
         "mut": st.sampled_from([0, 0, 1, 2]),
         "dcont": st.sampled_from(CONTS),
+        "uarg": st.sampled_from([None] * 9 + UARGS),  # the legacy positional user_arg
     }
 )
 _h = st.integers(0, 4)
@@ -1084,6 +1395,14 @@ _op = st.one_of(
     st.tuples(st.just("ds"), _bit),
     st.tuples(st.just("cbad"), _bit, _bit),
     st.tuples(st.just("gc")),
+    # the third name (registered only after a "reg" that adds it)
+    st.tuples(st.just("c"), _bit, st.just(2), _h, st.just(0)),
+    st.tuples(st.just("e"), _bit, st.just(2), st.lists(st.integers(0, 3), max_size=1)),
+    # the widget emits by itself / the constructor's connection is disconnected by its arguments / the
+    # sender's class is registered again with another list of names
+    st.tuples(st.just("p"), _bit),
+    st.tuples(st.just("dc"), _bit),
+    st.tuples(st.just("reg"), _bit, st.integers(0, 4), st.sampled_from(REG_CONTS)),
     # the next operation is interrupted at its k-th line inside urwid/signals.py: a weak argument dies there
     st.tuples(st.just("arm"), st.one_of(st.integers(0, 12), st.integers(0, 60)), st.integers(0, 2)),
 ).map(list)
@@ -1093,6 +1412,10 @@ _machine_case = st.fixed_dictionaries(
         "api": st.sampled_from(["global", "global", "instance"]),
         "senders": st.lists(st.sampled_from(KIND_NAMES), min_size=2, max_size=2),
         "handlers": st.lists(_handler, min_size=3, max_size=5),
+        # senders that are widgets with a constructor shorthand are built with it: [handler, user_data]
+        "ctor": st.lists(
+            st.one_of(st.none(), st.tuples(_h, st.sampled_from([None, None, *UARGS])).map(list)), min_size=2, max_size=2
+        ),
         "ops": st.lists(_op, min_size=2, max_size=25),
     }
 )
@@ -1120,6 +1443,10 @@ def _machine_classes(case):
     if any(case["handlers"][h]["weak"] for h in connected):
         out.add("machine:weak-args-connected")
     out.update(f"machine:cont:{case['handlers'][h].get('cont', 'list')}" for h in connected)
+    if any(case["handlers"][h].get("uarg") is not None for h in connected):
+        out.add("machine:legacy-user_arg-connected")
+    if any(c is not None and k in CTOR_KINDS for c, k in zip(case.get("ctor") or (), case["senders"])):
+        out.add("machine:constructor-shorthand" if case["api"] == "global" else "machine:constructor-shorthand-unused")
     return sorted(out)
 
 
@@ -1136,7 +1463,7 @@ def check_machine(case):
         gc.unfreeze()
 
 
-SUBS = {"hist": check_hist, "args": check_args, "moment": check_moment, "machine": check_machine}
+SUBS = {"hist": check_hist, "args": check_args, "reg": check_reg, "moment": check_moment, "machine": check_machine}
 
 
 def shard(ctx):
@@ -1149,6 +1476,10 @@ def shard(ctx):
     try:
         ctx.sweep("args", args_cases(), classify=_args_classes,
                   exhaustive_name="argument shapes")
+        if ctx.failure is not None:
+            return
+        ctx.sweep("reg", reg_cases(), classify=_reg_classes,
+                  exhaustive_name="registration spellings x registering again")
         if ctx.failure is not None:
             return
         ctx.sweep("moment", moment_cases(), classify=_moment_classes,
